@@ -854,6 +854,12 @@ def rule_r10(ctx) -> List[R.Inst]:
         forwarding_insts(ctx, "C04.R10", BMSMAP + ".read", ("_read_notes",))
 
 
+def rule_dep(ctx):
+    """obligations inherited from shared code reached through the call graph (sa/props/deps.py)"""
+    from .deps import dep_insts
+    return dep_insts(ctx, "C04", ["reamber.bms.BMSMap.BMSMap.read"], skip_groups=())
+
+
 SPECS = [
     RuleSpec("C04.R1", rule_r1, 5, "A10", "five channel layouts: injective, contiguous, roles on 02/03/08, equal to the format table"),
     RuleSpec("C04.R2", rule_r2, 6, "A7", "role names used by reader and writer are values of _HEADER"),
@@ -865,6 +871,7 @@ SPECS = [
     RuleSpec("C04.R9", rule_r9, 1, "A8", "every data line reaches the note reader (no keyed overwrite)"),
     RuleSpec("C04.R10", rule_r10, 2, "A8", "read_file / read forward the channel layout they accept"),
     RuleSpec("C04.R8", rule_r8, 9, "A5", "parallel sequences: column, sample, head and tail reach the right constructor keyword"),
+    RuleSpec("C04.D", rule_dep, 1, "M0", "rules of the shared code (timing engine, list classes, stacker) that the operations of this property reach"),
 ]
 
 META = dict(
